@@ -694,7 +694,7 @@ func (t *tracer) withPost(ev M, post M) M {
 }
 
 func (t *tracer) emit(ev M) {
-	b, err := json.Marshal(ev)
+	b, err := json.Marshal(project.NoEmptyMaps(ev))
 	if err != nil {
 		panic(err)
 	}
